@@ -153,3 +153,15 @@ const MAX_RTT_ERROR: f32 = 0.2;
 /// extension and an explicit max ACK delay is not configured.
 // Keep in sync with `AckFrequencyConfig::max_ack_delay` documentation
 const MIN_AUTOMATIC_ACK_DELAY: Duration = Duration::from_millis(25);
+
+#[cfg(feature = "quinn_rs_quinn_verif")]
+impl AckFrequencyState {
+    /// (in_flight_ack_frequency_frame, next_outgoing_sequence_number, last_ack_frequency_frame)
+    pub(super) fn verif_state(&self) -> (Option<(u64, Duration)>, u64, Option<u64>) {
+        (
+            self.in_flight_ack_frequency_frame,
+            self.next_outgoing_sequence_number.0,
+            self.last_ack_frequency_frame,
+        )
+    }
+}
